@@ -21,6 +21,7 @@ ERR_TYPES = ("error::ActorError", "futures_channel::oneshot::Canceled", "futures
 # accepted discarding idioms: (root function prefix, consumer) -> reason
 ACCEPTED_DISCARDS = {
     ("<actor::spawner::", "ok"): "spawner join flattens task failure and actor error to None (C17 R17.2)",
+    ("<actor::spawner::", "send"): "the loop's result is handed on to whoever joins, through the spawner's result channel (C17 reports-loop-result)",
     ("<actor::spawner::", "and_then"): "tokio join: Result<DynResult<A>, JoinError> flattened to Option (C17 R17.2)",
     ("<broker::", "dropped"): "broker fan-out: a subscriber that went away is not an error (C09: terminated subscribers neither block nor fail a publish)",
     ("broker::", "dropped"): "broker fan-out: a subscriber that went away is not an error (C09)",
@@ -302,6 +303,11 @@ def _check_response_slots(ctx, fx, cfg):
         for bi, t in b.normal_calls():
             if t.get("callee") != "futures_channel::oneshot::channel" and (t.get("resolved") or t.get("callee")) not in sctors:
                 continue
+            # the result channel of a spawner (the loop's result travels to whoever joins: C17 `reports-loop-result`) is not a
+            # response slot either
+            rootf_ = fx.fn(f.get("root", f["def"])) or f
+            if rootf_.get("impl_trait_def") == "actor::spawner::Spawner" and rootf_["def"].endswith("::spawn_actor"):
+                continue
             # the termination channel (its sender becomes the StopNotifier) is not a response slot: R02.3 covers it
             if any(s["k"] == "agg" and s.get("def") == "context::StopNotifier" for s in graph.value_sinks(fx, b, t["dest"][0])):
                 n_term += 1
@@ -505,6 +511,8 @@ def check_rest(ctx, fx, cfg):
                 continue
             root = f.get("root", f["def"])
             acc = [why for (pfx, cons), why in ACCEPTED_DISCARDS.items() if root.startswith(pfx) and (cons in cls or (cons == "dropped" and not cls))]
+            if not acc and root.startswith("<actor::spawner::") and producer.startswith("futures_channel::oneshot::") and producer.endswith("::send") and cls <= {"drop"}:
+                acc = ["the spawner's reporting task: a refused send only means that nobody will ever join (the handle was detached or dropped)"]
             if acc:
                 ctx.ok("R02.5", inst, loc, {"accepted": acc[0], "consumers": sorted(cls)})
             else:
